@@ -428,6 +428,7 @@ def expand_fn(fs, assumed_override=False, notes=None):
     else:
         # insertions
         blines = body.split('\n')
+        orig_blines = list(blines)
         ins_before = {}   # line index -> [text]
         ins_after = {}
         inline = []       # (line idx, col, text)  for loops / entry
@@ -441,26 +442,31 @@ def expand_fn(fs, assumed_override=False, notes=None):
             elif kind in ('before', 'after'):
                 lo = 0
                 if binder:
-                    lo = find_line_with(blines, binder, 1, 0)
+                    lo = find_line_with(orig_blines, binder, 1, 0)
                     if lo is None:
                         lost.append('%s `%s` from `%s`' % (kind, arg, binder))
                         continue
-                li = find_line_with(blines, arg, n, lo)
+                li = find_line_with(orig_blines, arg, n, lo)
                 if li is None:
                     lost.append('%s `%s` #%d' % (kind, arg, n))
                     continue
                 (ins_before if kind == 'before' else ins_after).setdefault(li, []).append(block)
             elif kind == 'tail':
                 # Rtail: `EXPR` (single-line tail expression) -> `let verif_tail = EXPR; <ghost> verif_tail`
-                li = find_line_with(blines, arg, n, 0)
+                li = find_line_with(orig_blines, arg, n, 0)
                 if li is None:
                     lost.append('tail `%s` #%d' % (arg, n))
                     continue
                 ln0 = blines[li]
                 st = ln0.strip()
+                ind = ln0[:len(ln0) - len(ln0.lstrip())]
+                if st.startswith('return ') and st.endswith(';'):
+                    ex = st[len('return '):-1]
+                    blines[li] = '%s{ let verif_tail = %s;\n%s\n%sreturn verif_tail; }' % (ind, ex, block, ind)
+                    deltas.append(dict(rule='Rtail', original=st, rewritten='{ let verif_tail = %s; <ghost> return verif_tail; }' % ex))
+                    continue
                 if st.endswith(';') or st.endswith('{') or st.endswith(','):
                     raise AssembleError('%s: //@tail `%s` is not a single-line tail expression' % (where, arg))
-                ind = ln0[:len(ln0) - len(ln0.lstrip())]
                 blines[li] = '%slet verif_tail = %s;\n%s\n%sverif_tail' % (ind, st, block, ind)
                 deltas.append(dict(rule='Rtail', original=st, rewritten='let verif_tail = %s; <ghost> verif_tail' % st))
             elif kind == 'loop':
@@ -495,9 +501,14 @@ def expand_fn(fs, assumed_override=False, notes=None):
                     inline.append(('off', in_pos, ' %s:' % binder, 'binder'))
         # apply: convert everything to absolute offsets in body
         if any(k == 'tail' for (k, _a, _n, _b, _c) in fs.inserts):
+            # loop-header offsets were computed on the text before the tail rewrite: shift them
+            new_body = '\n'.join(blines)
             if inline and any(it[0] == 'off' for it in inline):
-                raise AssembleError('%s: //@tail cannot be combined with //@loop in one function' % where)
-            body = '\n'.join(blines)   # elements may now hold embedded newlines; offsets below stay consistent
+                # recompute offsets by locating each tail-rewritten line start; a tail line after every loop header keeps offsets valid
+                first_tail = min(starts_of for starts_of in [sum(len(x) + 1 for x in body.split('\n')[:i]) for i, l in enumerate(blines) if 'verif_tail' in l])
+                if any(it[0] == 'off' and it[1] > first_tail for it in inline):
+                    raise AssembleError('%s: //@tail before a //@loop header in one function is not supported' % where)
+            body = new_body   # elements may now hold embedded newlines; offsets below stay consistent
         starts = [0]
         for l in blines:
             starts.append(starts[-1] + len(l) + 1)
